@@ -56,7 +56,7 @@ def strategy_(draw, tier):
     kw = case["kw"]
     how = draw(st.sampled_from([1, 0, 2, 2, 1, 2]))
     if kw.get("subpath_constraints") and kw.get("flow_attr_origin") != "node" and "length_attr" not in kw and how <= 1:
-        lens = draw(st.lists(st.sampled_from([3, 1, 2, 4]), min_size=len(case["graph"]["edges"]), max_size=len(case["graph"]["edges"])))
+        lens = draw(st.lists(st.sampled_from([3, 1, 0, 2, 4, 0]), min_size=len(case["graph"]["edges"]), max_size=len(case["graph"]["edges"])))
         for e, l in zip(case["graph"]["edges"], lens):
             e[2]["len"] = l
         kw["length_attr"] = "len"
